@@ -298,19 +298,19 @@ func genUndColor(g *vlib.G) {
 			for ci, cb := range plan {
 				// Partial colourings: all of them on the ascending harness
 				// graph for n <= 5 and (thorough) n = 6; elsewhere a rotating
-				// third (n <= 5), sixth (n = 6 thorough) or twelfth (n = 6
-				// quick, ascending graph: sixth) chosen by combination and
-				// edge mask. nil, empty and absent-node always.
+				// third (n <= 5 and n = 6 thorough) or twenty-fourth (n = 6
+				// quick; ascending graph: twelfth) chosen by combination
+				// and edge mask. nil, empty and absent-node always.
 				stride := 1
 				switch {
 				case quick6 && cb.v == vOrdAsc:
-					stride = 6
-				case quick6:
 					stride = 12
+				case quick6:
+					stride = 24
 				case cb.v == vOrdAsc:
 					stride = 1
 				case s.n >= 6:
-					stride = 6
+					stride = 3
 				case s.n == 5:
 					stride = 3
 				}
